@@ -60,4 +60,19 @@ def answerAlts (attached : Bool) (r : Option (List Byte)) (msg : Option (List By
     | none => [(false, [])]                     -- nothing (left) to answer: refused, transport untouched
     | some id => [(ans, [⟨mark id, msg, ans⟩])]
 
+/- stream-input variant: what the property expects for one incoming message whose first `idlen` bytes
+   are the id.  `firstReply` = payload of the handler's first reply attempt (`some none` = NULL message),
+   `code` = answer code of the default reply. -/
+
+/-- the one reply frame a request must produce: marked id, then the handler's message, or — when the
+    handler did not reply — the answer header `01 <code>`; `none` = no reply frame may be sent
+    (no id header in use, id all zero, or the message is itself a reply) -/
+def streamFrame (idlen : Nat) (data : List Byte) (firstReply : Option (Option (List Byte))) (code : Byte) :
+    Option (List Byte) :=
+  let id := data.take idlen
+  if idlen = 0 ∨ data.length < idlen ∨ (id.headD 0).toNat ≥ 128 ∨ id.all (· == 0) then none
+  else some (mark id ++ match firstReply with
+    | some m => m.getD []
+    | none => [1, code])
+
 end Mpt.ReplySpec
